@@ -328,8 +328,17 @@ class LazyEvaluatedKernelTensor(LinearOperator):
 
     @recall_grad_state
     def _unsqueeze_batch(self, dim):
-        x1 = self.x1.unsqueeze(dim)
-        x2 = self.x2.unsqueeze(dim)
+        batch_shape = self.shape[:-2]
+        kernel_batch_shape = self.kernel.batch_shape
+        # The kernel's own batch dimensions are aligned to the right and cannot be moved:
+        # a new dimension in between (or to the right of) them requires evaluating the kernel first
+        if self.last_dim_is_batch or (
+            dim > len(batch_shape) - len(kernel_batch_shape) and any(size != 1 for size in kernel_batch_shape)
+        ):
+            return self.evaluate_kernel()._unsqueeze_batch(dim)
+        # x1 and x2 may lack (or broadcast over) batch dimensions of the result
+        x1 = self.x1.expand(*batch_shape, *self.x1.shape[-2:]).unsqueeze(dim)
+        x2 = self.x2.expand(*batch_shape, *self.x2.shape[-2:]).unsqueeze(dim)
         return self.__class__(
             x1,
             x2,
@@ -376,8 +385,20 @@ class LazyEvaluatedKernelTensor(LinearOperator):
             repeats = repeats[0]
         *batch_repeat, row_repeat, col_repeat = repeats
 
-        x1 = self.x1.repeat(*batch_repeat, row_repeat, 1)
-        x2 = self.x2.repeat(*batch_repeat, col_repeat, 1)
+        if not self.last_dim_is_batch:
+            batch_shape = self.shape[:-2]
+            kernel_batch_shape = self.kernel.batch_shape
+            kernel_repeat = batch_repeat[-len(kernel_batch_shape) :] if len(kernel_batch_shape) else []
+            if any(rep != 1 and size != 1 for rep, size in zip(kernel_repeat, kernel_batch_shape[-len(kernel_repeat) :])):
+                # The kernel's own batch dimensions cannot be repeated through x1 and x2: evaluate the kernel first
+                res = self.repeat(*[1 for _ in batch_repeat], row_repeat, col_repeat)
+                return to_linear_operator(res.to_dense().repeat(*batch_repeat, 1, 1))
+            # x1 and x2 may lack (or broadcast over) batch dimensions of the result
+            x1 = self.x1.expand(*batch_shape, *self.x1.shape[-2:]).repeat(*batch_repeat, row_repeat, 1)
+            x2 = self.x2.expand(*batch_shape, *self.x2.shape[-2:]).repeat(*batch_repeat, col_repeat, 1)
+        else:
+            x1 = self.x1.repeat(*batch_repeat, row_repeat, 1)
+            x2 = self.x2.repeat(*batch_repeat, col_repeat, 1)
         return self.__class__(
             x1,
             x2,
